@@ -425,4 +425,93 @@ theorem appendPtr_loop1_alias (A : Arr) (sz os : Nat) (b e : Nat) :
           rw [e4 b' hb']
           simp [upd_ne _ _ _ _ hb']
 
+/-- the copy loop of `append(const Array& values)` with `values` another array whose storage holds the constructed elements `xs` -/
+theorem appendArray_loop1_ext (A : Arr) (va : Option Arr) (sz vs : Nat) (b bv : Nat) (hne : bv ≠ b) :
+    ∀ (xs : List Int) (i j e fuel : Nat) (M : Mem) (cs vcs : Cells), i + xs.length = e → xs.length < fuel →
+      M.blocks b = some cs → M.blocks bv = some vcs → (∀ t (ht : t < xs.length), readCell vcs (j + t) = some xs[t]) →
+      (fillFrom cs i xs = none →
+        SeqArr.appendArray_loop1 fuel M A va sz vs (some (b, i)) (some (b, e)) (some (bv, j)) = none) ∧
+      (∀ cs', fillFrom cs i xs = some cs' → ∃ M',
+        SeqArr.appendArray_loop1 fuel M A va sz vs (some (b, i)) (some (b, e)) (some (bv, j)) =
+          some (M', A, va, sz, vs, some (b, e), some (b, e), some (bv, j + xs.length)) ∧
+        M'.blocks b = some cs' ∧ M'.brk = M.brk ∧ ∀ b', b' ≠ b → M'.blocks b' = M.blocks b') := by
+  intro xs
+  induction xs with
+  | nil =>
+    intro i j e fuel M cs vcs hik hf hb hv hx
+    obtain ⟨f, rfl⟩ : ∃ f, fuel = f + 1 := ⟨fuel - 1, by omega⟩
+    have : i = e := by simpa using hik
+    subst this
+    simp only [fillFrom, SeqArr.appendArray_loop1, plt_off]
+    simp
+    exact hb
+  | cons x xs ih =>
+    intro i j e fuel M cs vcs hik hf hb hv hx
+    simp only [List.length_cons] at hik hf
+    obtain ⟨f, rfl⟩ : ∃ f, fuel = f + 1 := ⟨fuel - 1, by omega⟩
+    have hlt : i < e := by omega
+    have hx0 : readCell vcs j = some x := by
+      have := hx 0 (by simp)
+      simpa only [Nat.add_zero, List.getElem_cons_zero] using this
+    simp only [fillFrom, SeqArr.appendArray_loop1, plt_off, hlt, decide_true, if_true, rd_at M bv j vcs hv, hx0,
+      con_at M b i cs x hb]
+    cases hc : construct cs i x with
+    | none => simp
+    | some cs1 =>
+      simp only [Option.map_some, padd]
+      have h2 := ih (i + 1) (j + 1) e f { M with blocks := upd M.blocks b (some cs1) } cs1 vcs (by omega) (by omega)
+        (by simp [upd_same]) (by simp [upd_ne _ _ _ _ hne, hv])
+        (by intro t ht
+            have := hx (t + 1) (by simp; omega)
+            simpa [Nat.add_assoc, Nat.add_comm 1 t] using this)
+      refine ⟨fun hn => h2.1 hn, fun cs' hn => ?_⟩
+      obtain ⟨M', e1, e2, e3, e4⟩ := h2.2 cs' hn
+      refine ⟨M', ?_, e2, e3, ?_⟩
+      · rw [e1]; simp [Nat.add_assoc, Nat.add_comm 1 xs.length]
+      · intro b' hb'
+        rw [e4 b' hb']
+        simp [upd_ne _ _ _ _ hb']
+
+/-- … and with `values` the array itself (`a.append(a)`): `src` walks the array's own (new) block: `selfCopyLoop` -/
+theorem appendArray_loop1_alias (A : Arr) (va : Option Arr) (sz vs : Nat) (b e : Nat) :
+    ∀ (k i j fuel : Nat) (M : Mem) (cs : Cells), i + k = e → k < fuel → M.blocks b = some cs →
+      (selfCopyLoop cs i j k = none →
+        SeqArr.appendArray_loop1 fuel M A va sz vs (some (b, i)) (some (b, e)) (some (b, j)) = none) ∧
+      (∀ cs', selfCopyLoop cs i j k = some cs' → ∃ M',
+        SeqArr.appendArray_loop1 fuel M A va sz vs (some (b, i)) (some (b, e)) (some (b, j)) =
+          some (M', A, va, sz, vs, some (b, e), some (b, e), some (b, j + k)) ∧
+        M'.blocks b = some cs' ∧ M'.brk = M.brk ∧ ∀ b', b' ≠ b → M'.blocks b' = M.blocks b') := by
+  intro k
+  induction k with
+  | zero =>
+    intro i j fuel M cs hik hf hb
+    obtain ⟨f, rfl⟩ : ∃ f, fuel = f + 1 := ⟨fuel - 1, by omega⟩
+    have : i = e := by omega
+    subst this
+    simp only [selfCopyLoop, SeqArr.appendArray_loop1, plt_off]
+    simp
+    exact hb
+  | succ k ih =>
+    intro i j fuel M cs hik hf hb
+    obtain ⟨f, rfl⟩ : ∃ f, fuel = f + 1 := ⟨fuel - 1, by omega⟩
+    have hlt : i < e := by omega
+    simp only [selfCopyLoop, SeqArr.appendArray_loop1, plt_off, hlt, decide_true, if_true, rd_at M b j cs hb]
+    cases hr : readCell cs j with
+    | none => simp
+    | some v =>
+      simp only [con_at M b i cs v hb]
+      cases hc : construct cs i v with
+      | none => simp
+      | some cs1 =>
+        simp only [Option.map_some, padd]
+        have h2 := ih (i + 1) (j + 1) f { M with blocks := upd M.blocks b (some cs1) } cs1 (by omega) (by omega)
+          (by simp [upd_same])
+        refine ⟨fun hn => h2.1 hn, fun cs' hn => ?_⟩
+        obtain ⟨M', e1, e2, e3, e4⟩ := h2.2 cs' hn
+        refine ⟨M', ?_, e2, e3, ?_⟩
+        · rw [e1]; simp [Nat.add_assoc, Nat.add_comm 1 k]
+        · intro b' hb'
+          rw [e4 b' hb']
+          simp [upd_ne _ _ _ _ hb']
+
 end Nstd.Seq.AM
